@@ -184,7 +184,7 @@ impl Pager {
 //@ sub /where\s+P: Buffer \+ AsMut<\[u8\]>,\s+MemFrame: [^\n]*\n/ => \n
 //@ sub /self\.with_page_mut::<OverflowPage, _, _>\((\w+), \|overflow\| \{\s*overflow\.metadata_mut\(\)\.next = (.*?);\s*\}\)/ => self.set_overflow_next(\1, \2)
 //@ sub /self\.ensure_cached::<P>\(/ => self.ensure_cached(
-//@ sub /(\w+)\.with_bytes\(\|bytes\| self\.write_block\((\w+), bytes, (\w+)\)\)/ => self.write_frame_ro(&\1, \2, \3)
+//@ sub? /(\w+)\.with_bytes\(\|bytes\| self\.write_block\((\w+), bytes, (\w+)\)\)/ => self.write_frame_ro(&\1, \2, \3)
 //@ requires
 //@   old(self).unpinned(id),
 //@ ensures
